@@ -565,6 +565,16 @@ class SpecEval:
             if len(iids) <= want:
                 raise SpecError('%s() without an enclosing loop that ranges over a map' % name)
             return z3.Select(env.st.iters[iids[want]][0], self.eval_term(args[0], env))
+        if name == 'addr':
+            # addr(x): pointer to the cell of the address-taken local variable x
+            if args[0][0] != 'id':
+                raise SpecError('addr() needs a variable name')
+            fr = env.frame
+            cells = [ins for ins in fr.fn.cells().get(args[0][1], ()) if ins['reg'] in fr.regs]
+            if not cells:
+                raise SpecError('addr(%s): no such address-taken variable on this path' % args[0][1])
+            ins = sorted(cells, key=lambda x: int(x['reg'][1:]) if x['reg'][1:].isdigit() else 0)[-1]
+            return fr.regs[ins['reg']]
         if name == 'ref':
             return self.term(self.eval(args[0], env))
         if name == 'arr':
